@@ -294,6 +294,33 @@ class RefHist:
         self.ref[("h", "u")] = self.ref[("h2", "u")]
         return out + self.frame(before, [(pos, size)], "h._update(h2)")
 
+    def refused_late(self, which):
+        """a whole-value update whose LAST part is not a member of the union (a refusal that is a TypeError, raised
+        after the earlier parts were written): it must raise and leave the target as it was (seeded C11-e narrowed
+        the rollback to ValueError / IndexError)"""
+        I = self.I
+        if not hasattr(self, "X"):
+            F = I.global_lookup("scalar", "Float64")
+            self.X = self.ow.lab.struct("X", [("z", F)])
+        tx = I.call(self.X, [], {"z": 8.5, "_buffer": self.ow.buf("A")})
+        before = dict(I.mem)
+        # the three spellings of a union value: the object, (object,), (type name, data): they are refused by
+        # different exceptions (ValueError / TypeError)
+        bad = {"": tx, "-tuple": (tx,), "-named": ("X", {"z": 8.5})}[which[which.index("-"):] if "-" in which else ""]
+        if which.startswith("struct"):
+            h, label = self.h["h"], f"h._update({{k: 9.5, r: t1, u: <X, not a member of the union, given as {which}>}})"
+            value = {"k": 9.5, "r": self.h["t1"], "u": bad}
+        else:
+            h, label = self.h["rau"], f"rau._update([tz, <X, not a member of the union, given as {which}>])"
+            value = [self.h["tz"], bad]
+        out = []
+        try:
+            I.call(I.getattr(h, "_update"), [value], {})
+            out.append(f"{label} is accepted")
+        except PyExc:
+            pass
+        return out + self.frame(before, [], "refused " + label)
+
     def write_through_ref(self):
         I = self.I
         tgt = self.ref[("h", "r")]
@@ -410,6 +437,8 @@ OPS = {
     "write-through-original": lambda H: H.write_through_original(),
     "copy-holder-same-buffer": lambda H: H.copy_holder("same"),
     "copy-holder-other-buffer": lambda H: H.copy_holder("other"),
+    "holder-update-refused-late": lambda H: H.refused_late("struct") + H.refused_late("struct-tuple") + H.refused_late("struct-named"),
+    "unionarray-update-refused-late": lambda H: H.refused_late("array") + H.refused_late("array-tuple") + H.refused_late("array-named"),
 }
 
 
@@ -463,7 +492,7 @@ def _worker(args):
     return [(h,) + run_history(_MODEL_CACHE[root], h) for h in hists]
 
 
-@rule("RV", ["C08", "C09"], "references over histories of {bind to existing / value / foreign object / null, write through reference and original, copy the holder}: shared when and only when documented, always inside the holder's buffer, null reads None")
+@rule("RV", ["C08", "C09", "C11"], "references over histories of {bind to existing / value / foreign object / null, write through reference and original, copy the holder}: shared when and only when documented, always inside the holder's buffer, null reads None")
 def rv(cx):
     m = cx.m
     for _mod in ('struct', 'array', 'ref', 'scalar', 'typeutils'):
@@ -472,7 +501,7 @@ def rv(cx):
         m.func(q)
     maxlen = 3 if cx.tier == "thorough" else 2
     hs = [h for n in range(1, maxlen + 1) for h in itertools.product(list(OPS), repeat=n)]
-    focus = {"C09": ("copy-holder-same-buffer", "copy-holder-other-buffer", "copy-refarray-same-buffer", "copy-refarray-other-buffer", "copy-2d-refarray-same-buffer", "copy-2d-refarray-other-buffer", "update-from-holder", "copy-unionref-same-buffer", "copy-unionref-other-buffer")}.get(cx.prop)
+    focus = {"C11": ("holder-update-refused-late", "unionarray-update-refused-late", "bind-foreign", "union-bind-foreign"), "C09": ("copy-holder-same-buffer", "copy-holder-other-buffer", "copy-refarray-same-buffer", "copy-refarray-other-buffer", "copy-2d-refarray-same-buffer", "copy-2d-refarray-other-buffer", "update-from-holder", "copy-unionref-same-buffer", "copy-unionref-other-buffer")}.get(cx.prop)
     if focus and cx.tier != "thorough":
         hs = [h for h in hs if h[-1] in focus]
         cx.partial = True
@@ -498,7 +527,7 @@ def rv(cx):
             k, opn, b = f[0]
             by_op[opn].append((len(h), h, k, b))
     for o in OPS:
-        anchor = "ref::MetaUnionRef._to_buffer" if o.startswith("union") else "struct::Struct._to_buffer" if o.startswith("copy") else "ref::Ref._to_buffer"
+        anchor = "struct::Struct._update" if o == "holder-update-refused-late" else "array::Array._update" if o == "unionarray-update-refused-late" else "ref::MetaUnionRef._to_buffer" if o.startswith("union") else "struct::Struct._to_buffer" if o.startswith("copy") else "ref::Ref._to_buffer"
         n_with = sum(1 for h, f, e in results if o in h)
         if not n_with:
             continue
